@@ -39,6 +39,16 @@ var c16Leaves = []c16leaf{
 	{`req_query_key_in("uid")`, true},
 	{`req_port_in("8080")`, true},
 	{`req_cip_range("10.0.0.0", "10.255.255.255")`, true},
+	// false because the inspected attribute is MISSING from the request
+	// (no cookie, no such header / query key, no TLS, no response yet)
+	{`req_cookie_value_in("sid", "1", false)`, false},
+	{`req_header_value_in("X-Absent", "v", false)`, false},
+	{`req_query_value_prefix_in("zz", "1", false)`, false},
+	{`ses_tls_sni_in("example.org")`, false},
+	{`ses_tls_client_ca_in("ca1")`, false},
+	{`res_code_in("200")`, false},
+	{`req_context_value_in("nokey", "v", false)`, false},
+	// false although the attribute is present
 	{`req_method_in("POST")`, false},
 	{`req_path_in("/x", false)`, false},
 	{`req_host_in("other.org")`, false},
@@ -294,6 +304,15 @@ func c16Check(tb ev.TB, rec *ev.Rec, env *c16env, cs *c16case, class string) {
 		key = "and-or-same-level"
 	case alt["not-loose"]:
 		key = "not-binds-looser"
+	default:
+		// no precedence variant explains it: the operators themselves are
+		// applied wrongly to the leaf values
+		for _, tk := range cs.Tokens {
+			if tk == "!" {
+				key = "not-does-not-negate"
+				break
+			}
+		}
 	}
 	rec.Fail(tb, key, cs, "%q evaluates to %v, documented grammar gives %v", cs.Expr, got, cs.Want)
 }
@@ -365,7 +384,7 @@ func (n *c16node) leaves(out *[]*c16node) {
 }
 
 func TestC16(t *testing.T) {
-	rec := ev.New("C16", "expression trees (depth<=6) over leaves with known truth on a fixed request, printed with minimal parentheses per the documented precedence plus random redundant parentheses/white space; exhaustive enumeration of all unparenthesised expressions with <=4 leaves. non-trivial: at least one wrong grammar (|| tighter than &&, && and || on one level, ! looser than binary operators) evaluates the printed form differently from the documented grammar; distinct by printed expression")
+	rec := ev.New("C16", "expression trees (depth<=6) over leaves with known truth on a fixed request, printed with minimal parentheses per the documented precedence plus random redundant parentheses/white space; false leaves include primitives that are false because their attribute is missing (cookie, header, query key, SNI, client CA, response); exhaustive enumeration of all unparenthesised expressions with <=4 leaves for a missing-attribute and a present-attribute false leaf; !x, !(x), !!x for every leaf. non-trivial: at least one wrong grammar (|| tighter than &&, && and || on one level, ! looser than binary operators) evaluates the printed form differently from the documented grammar; distinct by printed expression")
 	env := c16Setup(t, rec)
 	ts, fs := env.pools()
 	if len(ts) == 0 || len(fs) == 0 {
@@ -390,43 +409,59 @@ func TestC16(t *testing.T) {
 	// exhaustive: every unparenthesised expression with up to 4 leaves
 	// ([!] leaf (op [!] leaf)*), all truth assignments
 	maxLeaves := ev.N(4, 5)
-	for n := 1; n <= maxLeaves; n++ {
-		for m := 0; m < 1<<(3*n-1); m++ {
-			var toks []string
-			bits := m
-			for i := 0; i < n; i++ {
-				if i > 0 {
+	fPresent := fs[0]
+	for _, f := range fs {
+		if f == `req_method_in("POST")` {
+			fPresent = f
+		}
+	}
+	for _, fleaf := range []string{fs[0], fPresent} { // fs[0]: false by missing attribute
+		for n := 1; n <= maxLeaves; n++ {
+			for m := 0; m < 1<<(3*n-1); m++ {
+				var toks []string
+				bits := m
+				for i := 0; i < n; i++ {
+					if i > 0 {
+						if bits&1 == 1 {
+							toks = append(toks, "&&")
+						} else {
+							toks = append(toks, "||")
+						}
+						bits >>= 1
+					}
 					if bits&1 == 1 {
-						toks = append(toks, "&&")
+						toks = append(toks, "!")
+					}
+					bits >>= 1
+					if bits&1 == 1 {
+						toks = append(toks, ts[0])
 					} else {
-						toks = append(toks, "||")
+						toks = append(toks, fleaf)
 					}
 					bits >>= 1
 				}
-				if bits&1 == 1 {
-					toks = append(toks, "!")
+				want, ok := evalTokens(toks, truth, "doc")
+				if !ok {
+					t.Fatalf("harness bug: %v", toks)
 				}
-				bits >>= 1
-				if bits&1 == 1 {
-					toks = append(toks, ts[0])
-				} else {
-					toks = append(toks, fs[0])
-				}
-				bits >>= 1
+				c16Check(t, rec, env, &c16case{Expr: strings.Join(toks, " "), Tokens: toks, Want: want}, "exhaustive")
 			}
-			want, ok := evalTokens(toks, truth, "doc")
-			if !ok {
-				t.Fatalf("harness bug: %v", toks)
-			}
-			c16Check(t, rec, env, &c16case{Expr: strings.Join(toks, " "), Tokens: toks, Want: want}, "exhaustive")
+		}
+		if fPresent == fs[0] {
+			break
 		}
 	}
 	// a few fixed shapes with parentheses, "!!" and odd spacing
-	for _, e := range [][]string{
+	shapes := [][]string{
 		{"!", "!", ts[0]}, {"!", "!", "!", ts[0]}, {"!", "(", ts[0], "&&", fs[0], ")"}, {"!", "(", ts[0], "||", fs[0], ")", "&&", fs[0]},
 		{"(", ts[0], "||", ts[0], ")", "&&", fs[0]}, {ts[0], "||", "(", ts[0], "&&", fs[0], ")"},
 		{"(", "(", ts[0], ")", ")"}, {"!", "(", "!", "(", fs[0], ")", ")"},
-	} {
+	}
+	// NOT applied directly / through parentheses / twice to every leaf
+	for _, l := range append(append([]string{}, ts...), fs...) {
+		shapes = append(shapes, []string{"!", l}, []string{"!", "(", l, ")"}, []string{"!", "!", l}, []string{"!", l, "&&", ts[0]}, []string{fs[0], "||", "!", l})
+	}
+	for _, e := range shapes {
 		want, ok := evalTokens(e, truth, "doc")
 		if !ok {
 			t.Fatalf("harness bug: %v", e)
